@@ -239,11 +239,15 @@ def mk_dense(rng, s, square=False):
     return DenseBlockDiagonalOperator(blocks, s, 'ij...,j...->i...')
 
 
-def mk_toeplitz(rng, s):
+def mk_toeplitz(rng, s, spd=False):
     if not is_single_array(s) or len(s.shape) != 1:
         return None
     k = rng.randint(1, min(3, s.shape[0]))
-    band = arr([rng.choice([4.0, 1.0, -1.0, 0.5, 2.0]) for _ in range(k)], s.dtype)
+    vals = [rng.choice([4.0, 1.0, -1.0, 0.5, 2.0]) for _ in range(k)]
+    if spd:
+        # strictly diagonally dominant with a positive diagonal: symmetric positive definite
+        vals = [8.0] + [rng.choice([1.0, -1.0, 0.5, 2.0]) for _ in range(k - 1)]
+    band = arr(vals, s.dtype)
     return SymmetricBandToeplitzOperator(band, s, method='dense')
 
 
@@ -345,7 +349,7 @@ def pat_inverse_pair(rng, s):
 
 
 def pat_lazy_inverse_pair(rng, s):
-    x = mk_toeplitz(rng, s)
+    x = mk_toeplitz(rng, s, spd=True)
     if x is None:
         return None
     xi = InverseOperator(x)
